@@ -136,6 +136,9 @@ def run(tier, rep):
         "LocalStreamIds and ArcSendWakers are exercised with two tasks",
         "interleavings are at the granularity of public calls; a call with two critical sections (SendBuffer::write) is split at a cfg(gmquic_verif) sync point",
         "wake-ups issued when the object itself is dropped at the end of a run are not observed",
+        "every poll / wait hands the object a fresh waker generation and only a wake of the task's latest generation counts (stale generations are recorded "
+        "as `stale`, spurious); AsyncDeque, RecvBuffer, ArcKeys / ArcZeroRttKeys / ArcOneRttKeys and the crypto stream reader / writer keep one generation "
+        "per task because they panic / assert by design when polled with a different waker while one is registered",
     ]
 
 
